@@ -100,7 +100,9 @@ int main(void)
 	CHECK(g_reg_add == 1 && g_reg_event == EPOLLIN, "C04: the timerfd is registered for EPOLLIN");
 	int64_t a = timer_mgr_schedule(t, 1.0); (void)a;
 	bool owner = nd_bool();
+	int settime_before = g_settime_calls;
 	timer_mgr_destroy(t, owner);
+	if (!owner) CHECK(g_settime_calls == settime_before, "C08,C04: destroying the manager in a forked child does not re-program the timerfd it shares with the owner (whose pending timers must still fire)");
 	CHECK(g_close_calls == 1 && g_reg_del == (owner ? 1 : 0), "C08: destroy closes the timerfd once; the registration is removed by the owner only");
 	WITNESS(!owner, "destroyed in a forked child");
     }
